@@ -238,6 +238,14 @@ def inits(draw):
             s = draw(gens.exact_words("STY" * 4 + "KEDRG" + ref.AA, draw(st.integers(1, 30))))
             sty = [i + 1 for i, r in enumerate(s) if r in ref.STY]
             phos = draw(st.lists(st.sampled_from(sty + [1, len(s)]), max_size=4, unique=True))
+        elif draw(st.integers(0, 4)) == 0:
+            # a designed, segregated ordering (charge blocks, neutrals split between start, middle and end), up to 36 residues
+            n_ = draw(st.integers(6, 36))
+            P_ = draw(st.integers(1, max(1, n_ // 3))); M_ = draw(st.integers(1, max(1, n_ // 3))); Z_ = max(0, n_ - P_ - M_)
+            s1 = draw(st.integers(0, Z_)); m1 = draw(st.integers(0, Z_ - s1))
+            pat = "0" * s1 + (("+" * P_ + "0" * m1 + "-" * M_) if draw(st.booleans()) else ("-" * M_ + "0" * m1 + "+" * P_)) + "0" * (Z_ - s1 - m1)
+            s = draw(gens.spelled(pat))
+            phos = []
         else:
             s = draw(gens.sequences(max_len=30))
             phos = []
